@@ -6,7 +6,7 @@ import struct
 import numpy as np
 
 from .. import fileio as fio
-from . import c04, c08, c09
+from . import c04, c06, c08, c09
 
 THEOREMS = ["C03_histogram", "C03_file", "C03_extrema", "C03_mem", "C03_mem_file"]
 hx = c08.hx
@@ -106,6 +106,23 @@ def run(ck):
         parts = c04.rand_partition(ck.rng, n)
         chunked = c04.chunked_write(las, parts)
         check_file(ck, chunked, las, arr, las.evlrs if minor >= 4 else None, dict(inp, parts=list(parts)), f"chunked file {parts}")
+        # append: the first k0 records written one-shot (k0 = 0 included), the rest appended in chunks
+        k0 = ck.rng.choice([0, 0, n // 2, n])
+        try:
+            size = las.header.point_format.size
+            orig = fio.make_las(ck.rng, minor, fmt, k0, raw=arr[:k0].tobytes(), evlrs=evlrs, scales=sc, offsets=of)
+            ob = io.BytesIO()
+            orig.write(ob)
+            rest = arr[k0:].tobytes()
+            chunks, pos = [], 0
+            for pp in c04.rand_partition(ck.rng, n - k0):
+                chunks.append(c06.rec_of(las, rest[pos * size:(pos + pp) * size]))
+                pos += pp
+            appended = c06.append_session(ob.getvalue(), chunks)
+            check_file(ck, appended, las, arr, las.evlrs if minor >= 4 else None, dict(inp, original_points=k0), f"appended file ({k0} + {n - k0} points)")
+            ck.count("append_file:orig_empty" if k0 == 0 else "append_file")
+        except Exception as e:
+            ck.fail(f"append session raised {type(e).__name__}: {e}", dict(inp, original_points=k0))
         # model: in-memory statistics of the same records
         f = fio.header_fields(las.header)
         lines.append("file stats " + fio.hdr_line(f) + f" -- {las.header.point_format.size} {hx(arr.tobytes())}")
